@@ -25,10 +25,15 @@ Rank(c) == CASE c = "attr"      -> 1
              [] c = "sink"      -> 4
              [] c = "pipeline"  -> 5
 
-VARIABLES hs,      \* the handler list
-          next,    \* next fresh identity
-          ncalls,  \* number of API calls made so far
-          made     \* made[i] = class of the handler object with identity i (objects outlive their removal)
+VARIABLES
+    \* @type: Seq({c: Str, i: Int, k: Int});
+    hs,      \* the handler list
+    \* @type: Int;
+    next,    \* next fresh identity
+    \* @type: Int;
+    ncalls,  \* number of API calls made so far
+    \* @type: Seq(Str);
+    made     \* made[i] = class of the handler object with identity i (objects outlive their removal)
 
 vars == <<hs, next, ncalls, made>>
 
@@ -44,16 +49,20 @@ Init == hs = <<>> /\ next = 1 /\ ncalls = 0 /\ made = <<>>
 ---------------------------------------------------------------------------
 \* Sequence helpers
 
+\* @type: (Seq({c: Str, i: Int, k: Int}), ({c: Str, i: Int, k: Int}) => Bool) => Seq({c: Str, i: Int, k: Int});
 Keep(s, P(_)) == SelectSeq(s, P)
 
+\* @type: (Seq({c: Str, i: Int, k: Int}), Int, {c: Str, i: Int, k: Int}) => Seq({c: Str, i: Int, k: Int});
 InsertAt(s, k, e) == SubSeq(s, 1, k) \o <<e>> \o SubSeq(s, k + 1, Len(s))
 
 \* documented placement: right after the last element whose class rank is <= the new one's
 \* (on a class-sorted list this is also "before the first element of a higher class")
+\* @type: (Seq({c: Str, i: Int, k: Int}), Str) => Int;
 LastLE(s, c) ==
-    LET S == {k \in 1..Len(s) : Rank(s[k].c) <= Rank(c)}
+    LET S == {k \in DOMAIN s : Rank(s[k].c) <= Rank(c)}
     IN  IF S = {} THEN 0 ELSE CHOOSE k \in S : \A j \in S : j <= k
 
+\* @type: (Seq({c: Str, i: Int, k: Int}), {c: Str, i: Int, k: Int}) => Seq({c: Str, i: Int, k: Int});
 Place(s, e) == InsertAt(s, LastLE(s, e.c), e)
 
 ---------------------------------------------------------------------------
@@ -66,19 +75,21 @@ AppendH(c) ==        \* appendAttrHandler / appendFilter / appendSink / appendPi
     /\ ncalls' = ncalls + 1
 
 ReAppendH(i) ==      \* the same calls with a handler object that was passed before (it may still be in the list)
-    /\ i \in 1..Len(made) /\ made[i] # "formatter"
+    /\ i \in DOMAIN made /\ made[i] # "formatter"
     /\ hs' = Place(hs, [c |-> made[i], i |-> i, k |-> ncalls + 1])
     /\ UNCHANGED <<next, made>>
     /\ ncalls' = ncalls + 1
 
 SetFormatter ==     \* setFormatter(non-null): replaces whatever formatter is there
-    /\ hs' = Place(Keep(hs, LAMBDA x : x.c # "formatter"), [c |-> "formatter", i |-> next, k |-> ncalls + 1])
+    /\ hs' = Place((LET \* @type: ({c: Str, i: Int, k: Int}) => Bool;
+                      NotF(x) == x.c # "formatter" IN SelectSeq(hs, NotF)), [c |-> "formatter", i |-> next, k |-> ncalls + 1])
     /\ next' = next + 1 /\ made' = Append(made, "formatter")
     /\ ncalls' = ncalls + 1
 
 ReSetFormatter(i) == \* setFormatter with a formatter object that was passed before (possibly the installed one)
-    /\ i \in 1..Len(made) /\ made[i] = "formatter"
-    /\ hs' = Place(Keep(hs, LAMBDA x : x.c # "formatter"), [c |-> "formatter", i |-> i, k |-> ncalls + 1])
+    /\ i \in DOMAIN made /\ made[i] = "formatter"
+    /\ hs' = Place((LET \* @type: ({c: Str, i: Int, k: Int}) => Bool;
+                      NotF(x) == x.c # "formatter" IN SelectSeq(hs, NotF)), [c |-> "formatter", i |-> i, k |-> ncalls + 1])
     /\ UNCHANGED <<next, made>>
     /\ ncalls' = ncalls + 1
 
@@ -88,7 +99,8 @@ AppendNull ==       \* any typed call with a null pointer: documented no-op
 
 Clear(c) ==         \* clearAttrHandlers / clearFilters / clearFormatters / clearSinks / clearPipelines / clear(type)
     /\ c \in Classes
-    /\ hs' = Keep(hs, LAMBDA x : x.c # c)
+    /\ hs' = (LET \* @type: ({c: Str, i: Int, k: Int}) => Bool;
+                 NotC(x) == x.c # c IN SelectSeq(hs, NotC))
     /\ UNCHANGED <<next, made>>
     /\ ncalls' = ncalls + 1
 
@@ -98,7 +110,7 @@ ClearAll ==         \* clear()
     /\ ncalls' = ncalls + 1
 
 Next == \/ \E c \in Classes \ {"formatter"} : AppendH(c)
-        \/ \E i \in 1..Len(made) : ReAppendH(i) \/ ReSetFormatter(i)
+        \/ \E i \in DOMAIN made : ReAppendH(i) \/ ReSetFormatter(i)
         \/ SetFormatter
         \/ AppendNull
         \/ \E c \in Classes : Clear(c)
@@ -109,19 +121,19 @@ Spec == Init /\ [][Next]_vars
 ---------------------------------------------------------------------------
 \* Property C17
 
-ClassSorted == \A a, b \in 1..Len(hs) : a < b => Rank(hs[a].c) <= Rank(hs[b].c)
+ClassSorted == \A a, b \in DOMAIN hs : a < b => Rank(hs[a].c) <= Rank(hs[b].c)
 
-OneFormatter == Cardinality({k \in 1..Len(hs) : hs[k].c = "formatter"}) <= 1
+OneFormatter == Cardinality({k \in DOMAIN hs : hs[k].c = "formatter"}) <= 1
 
-StableWithinClass == \A a, b \in 1..Len(hs) : (a < b /\ hs[a].c = hs[b].c) => hs[a].k < hs[b].k
+StableWithinClass == \A a, b \in DOMAIN hs : (a < b /\ hs[a].c = hs[b].c) => hs[a].k < hs[b].k
 
-NoDuplicates == \A a, b \in 1..Len(hs) : a # b => hs[a].k # hs[b].k     \* one entry per inserting call
+NoDuplicates == \A a, b \in DOMAIN hs : a # b => hs[a].k # hs[b].k     \* one entry per inserting call
 
 \* consequences the statement spells out
 AttrsBeforeFiltersAndFormatters ==
-    \A a, b \in 1..Len(hs) : (hs[a].c = "attr" /\ hs[b].c \in {"filter", "formatter"}) => a < b
+    \A a, b \in DOMAIN hs : (hs[a].c = "attr" /\ hs[b].c \in {"filter", "formatter"}) => a < b
 FormatterBeforeSinks ==
-    \A a, b \in 1..Len(hs) : (hs[a].c = "formatter" /\ hs[b].c = "sink") => a < b
+    \A a, b \in DOMAIN hs : (hs[a].c = "formatter" /\ hs[b].c = "sink") => a < b
 
 C17 == ClassSorted /\ OneFormatter /\ StableWithinClass /\ NoDuplicates
        /\ AttrsBeforeFiltersAndFormatters /\ FormatterBeforeSinks
